@@ -33,7 +33,12 @@ TRUSTED_EXTRA = [
     "the add-only hook NUSPACESIM_VERIF_DTYPE in CphotAng.__init__ (unset => byte-identical behaviour)",
 ]
 
-regen = cc.regen
+
+
+def regen():
+    import srctie
+    return {**cc.regen(), **srctie.regen("C06")}
+
 
 LOGIC_RTOL = 1e-6
 DET_ALT = 525.0
@@ -287,6 +292,12 @@ def run(ctx: Ctx, thorough=None):
                 ctx.violation("CphotAng.run", "history-dependent", "result on a reused kernel object differs from a fresh object's",
                               {"beta_rad": b, "alt_km": a, "E_100PeV": e, "earlier_energies_on_same_track": order[:n_],
                                "reused": [float(got[0]), float(got[1])], "fresh": [float(fresh[0]), float(fresh[1])]})
+    # ---- source tie: the helper methods and the head / tail of `run` of the binary64 kernel next to their translation from
+    # the source (Gen/Src/C06.lean at Float); validates the translator's reading, the model is tied by the src_* theorems
+    import cphot_srctie
+    tie_ev = [(r["ev"][1], r["ev"][2], r["ev"][3]) for r in recs[:: max(1, len(recs) // (24 if thorough else 6))]]
+    cphot_srctie.helpers(ctx, "C06", tie_ev)
+    cphot_srctie.run_head_tail(ctx, "C06", tie_ev + [(0.0, 3.0, 1.0), (float(np.radians(0.5)), 0.0, 0.01)], [525.0, 33.0, 1000.0])
     # The two sections below call internal methods of the kernel with the signatures of the modelled code. They only
     # localise a drift; if the code was refactored so that they no longer fit, that is a broken correspondence
     # (the end-to-end comparison above still decides the property), not a failure of the check.
